@@ -26,7 +26,7 @@ import (
 // message is returned; cancellation returns promptly.
 
 type retryConn struct {
-	reads []time.Duration
+	reads     []time.Duration
 	ctxCancel func()
 }
 
@@ -47,7 +47,7 @@ func (c *retryConn) ReadFrom() (ndp.Message, *ipv6.ControlMessage, netip.Addr, e
 	}
 	return &ndp.RouterSolicitation{}, &ipv6.ControlMessage{HopLimit: 255}, from, nil
 }
-func (c *retryConn) SetReadDeadline(time.Time) error                              { return nil }
+func (c *retryConn) SetReadDeadline(time.Time) error                             { return nil }
 func (c *retryConn) WriteTo(ndp.Message, *ipv6.ControlMessage, netip.Addr) error { return nil }
 
 var _ system.Conn = &retryConn{}
